@@ -25,7 +25,7 @@ func init() {
 		Phases: func(tier string, seed int64) []Phase {
 			return []Phase{{Name: "tables", Run: c03Tables}, {Name: "goldap-noroute", Run: c03GoLDAP}}
 		},
-		MinObserved: []string{"requests_routed", "outcome/builtin", "outcome/default", "outcome/first_of_several", "outcome/shadowed_later_route", "tables_over_tls"},
+		MinObserved: []string{"requests_routed", "outcome/builtin", "outcome/default", "outcome/first_of_several", "outcome/shadowed_later_route", "tables_over_tls", "tables_whose_route_handlers_panic_after_replying"},
 	})
 }
 
@@ -185,12 +185,18 @@ func (t c03Table) sig() string {
 }
 
 // c03RunTable serves the whole request alphabet against one route table.
+var c03TableCtr atomic.Int64
+
 func c03RunTable(c *Ctx, srv *Srv, t c03Table, reqs []creq) { c03RunTableOn(c, srv, nil, t, reqs) }
 
 func c03RunTableOn(c *Ctx, srv *Srv, ctc *tls.Config, t c03Table, reqs []creq) {
 	var mu sync.Mutex
 	var recs []c03Rec
-	mk := func(name string) gldap.HandlerFunc {
+	panicky := c03TableCtr.Add(1)%5 == 4
+	if panicky {
+		c.Count("tables_whose_route_handlers_panic_after_replying", 1)
+	}
+	mk := func(name string, mayPanic bool) gldap.HandlerFunc {
 		return func(w *gldap.ResponseWriter, r *gldap.Request) {
 			o := observe(name, r)
 			mu.Lock()
@@ -200,11 +206,21 @@ func c03RunTableOn(c *Ctx, srv *Srv, ctc *tls.Config, t c03Table, reqs []creq) {
 			// message ID, exactly which handlers ran (also for extended requests,
 			// whose message ID no getter exposes)
 			replyWithDiag(o.Kind, w, r, "H:"+name)
+			if panicky && mayPanic {
+				// the handler has answered and now fails (recovered by gldap): the request has been served - by this
+				// handler, once - and nobody else gets to serve or refuse it
+				panic("injected panic after the reply (C03)")
+			}
 		}
 	}
 	m, _ := gldap.NewMux()
 	for i, r := range t.Routes {
-		h := mk(fmt.Sprintf("R%d", i))
+		h := mk(fmt.Sprintf("R%d", i), true)
+		if r.Kind == "ext" && r.Name == sber.OIDStartTLS {
+			// a StartTLS-named route runs on the connection's read loop: a panic there ends the connection (C07's
+			// subject), so this handler does not panic
+			h = mk(fmt.Sprintf("R%d", i), false)
+		}
 		var err error
 		switch r.Kind {
 		case "bind":
@@ -236,10 +252,10 @@ func c03RunTableOn(c *Ctx, srv *Srv, ctc *tls.Config, t c03Table, reqs []creq) {
 		}
 	}
 	for i := 1; i <= t.NDefault; i++ {
-		m.DefaultRoute(mk(fmt.Sprintf("D%d", i)))
+		m.DefaultRoute(mk(fmt.Sprintf("D%d", i), false))
 	}
 	for i := 1; i <= t.NUnbind; i++ {
-		m.Unbind(mk(fmt.Sprintf("U%d", i)))
+		m.Unbind(mk(fmt.Sprintf("U%d", i), false))
 	}
 	if err := srv.S.Router(m); err != nil {
 		c.Inconclusive("Router: " + err.Error())
